@@ -67,6 +67,8 @@ func Scratch() string {
 type Module struct {
 	Dir   string
 	Files map[string]string
+	// Linked: files that are written to <Dir>-shared/ and appear in the module as symbolic links
+	Linked map[string]bool
 }
 
 // Write creates the module on disk (go.mod with replaces to /repo and /verif, go.sum copied).
@@ -90,7 +92,20 @@ func (m *Module) Write() error {
 		if err := os.MkdirAll(filepath.Dir(p), 0o755); err != nil {
 			return err
 		}
-		if err := os.WriteFile(p, []byte(content), 0o644); err != nil {
+		if m.Linked[name] {
+			// the file lives in another directory; the module holds a symbolic link to it (a shared template)
+			shared := filepath.Join(m.Dir+"-shared", name)
+			if err := os.MkdirAll(filepath.Dir(shared), 0o755); err != nil {
+				return err
+			}
+			if err := os.WriteFile(shared, []byte(content), 0o644); err != nil {
+				return err
+			}
+			os.Remove(p)
+			if err := os.Symlink(shared, p); err != nil {
+				return err
+			}
+		} else if err := os.WriteFile(p, []byte(content), 0o644); err != nil {
 			return err
 		}
 		if strings.HasSuffix(name, ".templ") {
